@@ -123,7 +123,9 @@ def enrich(prog, rng, max_in=3, max_inputs=10, max_choices=4, dstcap=3, allargs=
         for pi_ in ins["y"]:
             p = prog.nd(pi_)
             k, _ = prog.tykind(p["l"])
-            if k not in ("num", "reader", "writer"):
+            # a slice-typed parameter is interpreted for PRIVATE functions only (the caller's slice value is passed;
+            # the model faults as "unsupported" if it points into a local array of the caller's frame)
+            if k not in ("num", "reader", "writer") and not (k == "slice" and not pub):
                 return None, "param kind " + k
             params.append({"n": p["c"], "ty": p["l"], "kind": k, "base": prog.base_name(p["l"]) if k == "num" else ""})
         locs = []
